@@ -1,4 +1,5 @@
 import collections
+import copy
 import uuid
 import warnings
 from copy import deepcopy
@@ -1335,7 +1336,7 @@ class Scene(Geometry3D):
         copied = Scene(
             geometry=geometry,
             graph=self.graph.copy(),
-            metadata=self.metadata.copy(),
+            metadata=copy.deepcopy(self.metadata),
             camera=camera,
         )
         return copied
